@@ -8,13 +8,13 @@ PROP = dict(
     required_theorems=["Comdex.C20.roundtrip_id", "Comdex.C20.tables_wf", "Comdex.C20.roundtrip_modules",
                        "Comdex.C20.table_size", "Comdex.C20.table_prefix_counts", "Comdex.C20.table_spot_vault",
                        "Comdex.C20.table_spot_liquidity", "Comdex.C20.table_spot_market",
-                       "Comdex.C20.store_coverage_full", "Comdex.C20.import_faithful_full", "Comdex.C20.import_total_full",
+                       "Comdex.C20.store_coverage_full", "Comdex.C20.import_faithful_full", "Comdex.C20.import_total_full", "Comdex.C20.derived_sourced_full",
                        "Comdex.C20.counters_exact_full", "Comdex.C20.fields_used_full",
                        "Comdex.C20.knownGaps_are_gaps", "Comdex.C20.suspectedGaps_are_gaps", "Comdex.C20.allowList_are_gaps",
                        "Comdex.C20.benign_counters", "Comdex.C20.counter_counterexample", "Comdex.C20.store_counterexample"],
     harness_tests=["TestC20"],
     trusted_base=[KERNEL_TB, HARNESS_TB,
-                  "extract/genesis (go/ast only, ~900 lines): attributes every store access of x/<m>/keeper to a prefix of "
+                  "extract/genesis (go/ast only, ~1500 lines): attributes every store access of x/<m>/keeper to a prefix of "
                   "x/<m>/types/keys.go, follows calls from ExportGenesis / InitGenesis, classifies how InitGenesis restores each id "
                   "counter. A wrong table makes a table obligation vacuous; mitigations: expected size and spot entries are pinned in "
                   "Props/C20.lean, and the driver attributes every key of the REAL dumped stores to the table's prefixes and compares "
